@@ -366,6 +366,40 @@ def run(fx, R, tier):
                                na, disp(common(a1.path, a2.path)), disp(m), a1.loc, a2.loc, ob), a2.loc, 'E-LOCK')
             elif by_acq and not split:
                 R.holds('L3', '%s::%s' % (cname, na), 'guarded accesses of each mutex lie in one critical section', engine='E-LOCK')
+        # ---- L6 one snapshot -----------------------------------------------------
+        # a reader entry that returns an object by value and fills it from shared storage read in two SEPARATE synchronisation domains (two critical sections, or a critical section and an atomic), when one
+        # call of a concurrent writer entry updates both: the copy handed out can pair the new value of one with the old value of the other - every access is synchronised (no race), yet the copy is one no
+        # sequential ordering of the calls produces
+        for (na, ra, SA, fa) in sums:
+            rt = (fa.get('ret') or {})
+            if ra != 'reader' or rt.get('ref') or rt.get('c') in ('ptr', 'int', 'fp', 'bool') or rt.get('s') in ('void', 'bool'):
+                continue
+            reads = [a for a in _dedupe(SA.accesses) if a.kind == 'R']
+            mixed = None
+            for i1, a1 in enumerate(reads):
+                for a2 in reads[i1 + 1:]:
+                    if overlap(a1.path, a2.path) or (a1.locks & a2.locks):
+                        continue
+                    if not (a1.locks or exempt(a1)) or not (a2.locks or exempt(a2)):
+                        continue                       # an unsynchronised read is rule L1's business
+                    if not a1.locks and not a2.locks:
+                        continue                       # two atomics: rule L5
+                    for (nb, rb, SB, fb) in sums:
+                        if SB is SA or not concurrent(ra, rb, False):
+                            continue
+                        w1 = [b for b in SB.accesses if b.kind == 'W' and overlap(b.path, a1.path)]
+                        w2 = [b for b in SB.accesses if b.kind == 'W' and overlap(b.path, a2.path)]
+                        if w1 and w2 and mixed is None:
+                            mixed = (a1, a2, nb, w1[0], w2[0])
+            if mixed:
+                a1, a2, nb, w1, w2 = mixed
+                R.violated('L6', '%s::%s:mixed-snapshot:%s+%s' % (cname, na, field_key(fx, cq, a1.path), field_key(fx, cq, a2.path)),
+                           'entry %s returns a copy by value and fills it from %s (%s, %s) and from %s (%s, %s): two separately synchronised reads.  One call of %s writes both (%s and %s), so a copy taken '
+                           'between the two stores pairs the new value of one with the old value of the other: status/message and value of the returned report then contradict each other, although no access '
+                           'races' % (na, disp(a1.path), a1.loc, 'under ' + ', '.join(disp(m_) for m_ in a1.mutexes()) if a1.locks else 'atomic', disp(a2.path), a2.loc,
+                                      'under ' + ', '.join(disp(m_) for m_ in a2.mutexes()) if a2.locks else 'atomic', nb, w1.loc, w2.loc), a2.loc, 'E-LOCK')
+            elif reads:
+                R.holds('L6', '%s::%s' % (cname, na), 'the returned copy is filled from one synchronisation domain', engine='E-LOCK')
     R.note('entry_points', n_entries)
     R.note('guard_acquisitions', n_guards)
     R.floor('L2', 10)
